@@ -200,6 +200,26 @@ func genIOAln(r *Rand, formats []string, maxRows, maxLen int) AlnSpec {
 		a.Names = append(a.Names, nm)
 		a.Seqs = append(a.Seqs, genResidues(r, l, a.Alphabet, lower, "-*?", []float64{0, 0.05, 0.2}[r.Intn(3)]))
 	}
+	if r.Chance(0.015) {
+		// a row whose residues spell a word one of the formats gives a meaning to (every letter of it is a residue of
+		// the alphabet): the whole alignment gets that length
+		words := []string{"DATA", "TAA", "GAT", "NCHAR", "TAG", "CAT"}
+		if a.Alphabet == align.AMINOACIDS {
+			words = []string{"BEGIN", "END", "DATA", "CHARACTERS", "TAXA", "TAXLABELS", "TREES", "TREE", "NTAX", "NCHAR", "DATATYPE", "MISSING", "MATCHCHAR", "GAP", "MATRIX", "INTERLEAVE", "TRANSLATE", "ENDBLK"}
+		}
+		w := words[r.Intn(len(words))]
+		if len(w) <= maxLen {
+			for i := range a.Seqs {
+				a.Seqs[i] = genResidues(r, len(w), a.Alphabet, lower, "-", 0.05)
+			}
+			if r.Chance(0.3) {
+				w = strings.ToLower(w)
+			} else if r.Chance(0.2) {
+				w = w[:1] + strings.ToLower(w[1:])
+			}
+			a.Seqs[r.Intn(n)] = w
+		}
+	}
 	return a
 }
 
